@@ -32,6 +32,30 @@ CLAIMED = {
     "C11": ("ordering analysis on all paths of _start_if_ready (claims inside the claim transaction) + SQL/DDL shape rules for stage_claims",
             "Decides: mutex/choice claims are taken inside the claim transaction before the claiming store; a refused claim rolls back and never plans (mutex re-queues, choice cancels itself atomically); acquire_claim statement shapes and the unique key in schema and migration; claims only swept for completed executions; the winner cancels siblings. Does not decide interleavings or fairness.",
             "Trusted: SQLite unique-constraint semantics.", "5/C11"),
+    "C05": ("decision table of _determine_final_status (extracted from the AST) + completeness/effectiveness of continuation pushes on all handler paths (commit-sequence analysis)",
+            "Decides necessary conditions of progress: SUCCEEDED only under all-continuable (one listed known finding), TERMINAL dominates; every commit that stores the own stage completed pushes a continuation or is listed with a guard; every pushed continuation is accepted by its receiver in a status the commit stored; a normally returning path never leaves the own entity RUNNING without a continuation (one listed known finding). Does not decide liveness over all arrival orders.",
+            "Trusted: reviewed tables in sa/rules/c05.py (NO_CONTINUATION_OK, ACC). Two open known findings (F5, F9) in known_findings.json.", "5/C05"),
+    "C12": ("writer/reader agreement between recorder call sites on all handler paths and the replayer's apply cases + structural rules on the as_of cut and snapshot keys",
+            "Decides: at every recorder call site on a handler path the status the replayer derives from the event equals the entity's status there; every regular durable status change of a stage/task/workflow has an event for that entity on its path (exceptions listed with reason); every emitted event type has an apply case; the as_of cut filters <= and only uses snapshots not newer than the cut; snapshot keys written = keys restored. Does not decide payload equality.",
+            "Trusted: reviewed tables in sa/rules/c12.py (NO_EVENT_OK, NO_EVENT_SITES, EVENT_STATUS_OK).", "5/C12"),
+    "C13": ("structural rules on the event scope / transaction context managers + event-in-transaction rule on all handler paths + SQL/DDL shape of the events table",
+            "Decides: events recorded under an open scope are appended on the scope's connection and published only after the outermost commit; abort never publishes; the scope is closed before publication; completion events of CompleteTask/CompleteStage/SkipStage/CancelStage are inside the transaction that stores the completed status; no completion event is recorded before the commit that makes the state durable; sequence is AUTOINCREMENT and never supplied.",
+            "Trusted: SQLite atomic commit; event store in the same database (documented otherwise).", "5/C13"),
+    "C14": ("guard extraction on handle_exception + def-use dataflow of the retry budget field through message construction, both serialisers, the queue columns and poll_one + commit-sequence rule",
+            "Decides: a transient retry is reached only under is_transient and budget+1 < max_attempts, every other path marks TERMINAL; the retry message carries budget+1; the budget field survives push -> row -> poll -> message (not overwritten by a queue column); context_update and the retry push are one transaction on a freshly read stage. Does not decide backoff durations.",
+            "Trusted: reviewed field tables in sa/rules/c14.py.", "5/C14"),
+    "C15": ("control-dependence of the StartStage push on the jump-count guard + def-use rules for the counter and limit + clear-set agreement between writers of join bookkeeping and reset_stage_for_retry + commit-sequence rule",
+            "Decides: the jump push is control-dependent on _check_jump_count being True and the False branch fails the stage atomically; the limit test is >= with the documented precedence and default; the counter is incremented and written to both stages; resets keep the jump bookkeeping and clear every join bookkeeping key any writer sets; each jump is one transaction on freshly read stages; downstream collection only under all-prerequisites-in-scope. Does not decide exactness of the re-arm set for every DAG.",
+            "Trusted: key tables read from the source, not hard-coded.", "5/C15"),
+    "C17": ("path-condition analysis of task execution on all RunTask paths + commit-sequence shapes of CancelWorkflow/CancelStage + SQL who-may-write for is_canceled",
+            "Decides: a task body/timeout hook is executed only where the path condition has is_canceled False, the workflow not complete and the task RUNNING; cancel handlers have the reviewed atomic shapes and only write CANCELED to non-completed entities; is_canceled has one writer and is never reset; a CANCELED top-level stage yields CANCELED after the TERMINAL test. Does not decide liveness of cancellation.",
+            "Trusted: SQLite writer serialisation.", "5/C17"),
+    "C18": ("commit-sequence shapes of SignalStage and _handle_suspended on all paths + freshness of the stored stage + who-may-write scan of the mailbox key",
+            "Decides: a signal either resumes a SUSPENDED stage, is appended to the durable mailbox of a persistent signal, or is only marked - each in one transaction with the mark; suspending consumes a buffered signal atomically (pop, write back, RUNNING, push) or parks without push; every mailbox/SUSPENDED store is a CAS store of a stage read inside the retried closure; closed writer set of _buffered_signals; resets keep it. Does not decide the interleavings themselves.",
+            "Trusted: optimistic-lock CAS + retry (C07).", "5/C18"),
+    "C19": ("writer/reader table agreement: dataclass fields = INSERT columns = bound parameters = converter keywords ⊆ DDL columns; codec pairing per column; UPDATE column set; ORDER BY of task reads; message registry and serialiser agreement",
+            "Decides the structural part of round-trip fidelity for workflows, stages, tasks and queue messages: no field is dropped or crossed between write and read, each column is decoded with the inverse of its encoder, task order is preserved by ORDER BY id, both message serialisers agree and every message type is registered. Does not decide value-level JSON fidelity.",
+            "Trusted: listed exemptions in sa/rules/c19.py (transient fields).", "5/C19"),
 }
 
 checks = []
